@@ -247,7 +247,7 @@ sys:
 	}
 	h.Col.Exhaustive(fmt.Sprintf("all 20 interleavings of two 3-request scripts over {SELECT,AUTH,GET,REMEMBER} for every %d-th script pair", stride), complete)
 
-	h.Rapid("random", h.N(5000, 30000), func(rt *rapid.T) {
+	h.Rapid("random", h.N(5000, 200000), func(rt *rapid.T) {
 		c := c13Case{Conns: rapid.IntRange(2, 8).Draw(rt, "conns")}
 		if rapid.Bool().Draw(rt, "pw") {
 			c.Password = "sesame"
